@@ -1022,9 +1022,11 @@ impl Sim for SimC4 {
                         }
                     }
                 }
-                if keep {
-                    lines.push(format!("op {k}: {op:?} ok"));
-                }
+                let _ = keep;
+                lines.push(format!(
+                    "op {k}: {op:?} ok; client deliveries {:?}",
+                    clients.iter().map(|c| c.0.received.lock().unwrap().len()).collect::<Vec<_>>()
+                ));
             }
             let end = start.elapsed().as_millis() as u64;
             for h in handles {
